@@ -343,7 +343,7 @@ class Registry(object):
             else:
                 raise SyntaxError('%s:%d: unknown clause %s' % (path, st.lineno, k))
             if hide:
-                for lst in [c.requires, c.ensures, c.raises, c.exit_hints] + list(c.invariants.values()) + list(c.loop_hints.values()):
+                for lst in [c.requires, c.ensures, c.raises, c.exit_hints] + list(c.invariants.values()) + list(c.loop_hints.values()) + list(c.cuts.values()):
                     if lst and lst[-1].lineno == st.lineno:
                         lst[-1].hide = hide
         return c
